@@ -14,7 +14,7 @@ ID = 'C03'
 LEVEL = 'exploration'
 RUNS = {'quick': 20000, 'thorough': 400000}
 CHUNK = 50
-PROBES = ['large_capture', 'special_record', 'partial_tag_prefix_before_tag', 'earlier_dump_other_parser_object', 'multi_chunk', 'empty_chunk', 'cut_inside_window', 'cut_inside_lookup', 'decoy_tag_in_stackshot', 'gap_before_event_tag',
+PROBES = ['same_object_abandoned_in_logs', 'tag_straddles_buffer_boundary', 'large_capture', 'special_record', 'partial_tag_prefix_before_tag', 'earlier_dump_other_parser_object', 'multi_chunk', 'empty_chunk', 'cut_inside_window', 'cut_inside_lookup', 'decoy_tag_in_stackshot', 'gap_before_event_tag',
           'header_plist_unaligned', 'two_kext_blocks', 'two_dyld_blocks', 'two_code_blocks', 'two_log_blocks', 'unpadded_last_block',
           'log_extends_tables', 'log_without_pid', 'strings_block_before_logs', 'xml_plists', 'no_blocks', 'unknown_block',
           'log_with_tai', 'cli_run']
@@ -64,6 +64,16 @@ def generate(rng, index, tier):
         # records a kernel buffer can hold besides decoded ones: all-zero slots, all-ones, zero timestamp and debugid
         scn['special'] = [[rng.randrange(0, nrec + 1), rng.pick(['zero', 'zero', 'ones', 'zts'])] for _ in range(rng.randint(1, 3))]
     scn['cli'] = index % 16 == 0
+    if rng.chance(0.2):
+        # the SAME KdBufParser object parsed another v3 dump before, and that listing was abandoned somewhere (possibly
+        # in the middle of its log records)
+        scn['same_object_earlier'] = {'writer': worlds.gen_writer(rng, 3, threads, 3, logs=True), 'after': rng.randint(0, 12)}
+        scn['api'] = 'kd'
+    if nrec >= 2 and rng.chance(0.12):
+        scn['align'] = rng.randint(1, 7)       # place a chunk boundary tag 1..7 bytes before a multiple of the I/O buffer size
+        scn['cli'] = True
+        if not w['chunks']:
+            w['chunks'] = [nrec // 2]
     if w['blocks'] and rng.chance(0.25):
         # an earlier dump, parsed first by ANOTHER parser object in the same process, that shares some payloads with this one
         import copy
@@ -117,6 +127,16 @@ def execute(scn):
         bump('probe:special_record')
     w = scn['writer']
     data, layout = worlds.build_file(w, rb)
+    if scn.get('align'):
+        # lengthen the stackshot filler so that a MORE_EVENTS tag starts `align` bytes before a multiple of 4096 / 8192
+        hdrs = [s_ for n_, s_, e_ in layout if n_ == 'chunkhdr'][1:]
+        if hdrs:
+            import copy
+            w = copy.deepcopy(w)
+            pad = (-(hdrs[0] + scn['align'])) % 8192
+            w['filler1'] = ('5a' * pad) + w.get('filler1', '')
+            data, layout = worlds.build_file(w, rb)
+            bump('probe:tag_straddles_buffer_boundary')
     blocks = w.get('blocks', [])
     kinds = [b['kind'] for b in blocks]
     cuts = sorted(min(max(c, 0), len(rb)) for c in w.get('chunks', []))
@@ -183,6 +203,23 @@ def execute(scn):
         kd = None
     else:
         kd = tool.kdbuf_mod.KdBufParser(tp, pn)
+        so = scn.get('same_object_earlier')
+        if so:
+            edata, _ = worlds.build_file(so['writer'], rb[:2])
+            try:
+                it = iter(kd.parse(SimReader(edata)))
+                seen_logs = 0
+                for _i in range(so.get('after', 0)):
+                    x = next(it, None)
+                    if x is None:
+                        break
+                    seen_logs += 1 if common.is_log(x) else 0
+                if seen_logs:
+                    bump('probe:same_object_abandoned_in_logs')
+                bump('fault:abandon')
+                scn_hold = it
+            except Exception:
+                pass
         items, exc = common.drain(lambda: kd.parse(SimReader(data)))
     has_tai = any('tai' in ev for b in blocks if b['kind'] == 'logs' for ev in b['payload']['Events'])
     if has_tai:
@@ -287,6 +324,11 @@ def execute(scn):
                     gotv = ('unparsable', res.output[:100], repr(res.exception))
                 if gotv != wantv:
                     bad('cli-attribute', cmd, 'CLI %s printed %r, the dump holds %r' % (cmd, gotv, wantv))
+            with open(path, 'rb') as fobj:
+                fitems, fexc = common.drain(lambda: tool.kdbuf_mod.KdBufParser({}, {}).parse(fobj))
+            fgot = [common.ev_tuple(e) for e in fitems if not common.is_log(e)]
+            if fexc is not None or fgot != want:
+                bad('real-file-differs', 'events', 'parsed from a real buffered file: %d events (%r), from memory %d' % (len(fgot), fexc, len(want)))
             res = CliRunner().invoke(cli, ['kevents', path, '--no-show-tid'])
             nlines = len([l for l in res.output.split('\n') if l])
             if nlines != len(rb):
